@@ -146,6 +146,16 @@ def solve(
                 )
 
     if options is not None:
+        # The constraint we pick must itself satisfy the upper bounds.
+        options = [
+            option
+            for option in options
+            if all(
+                bound.value.is_assignable(option, ctx)
+                for bound in bounds
+                if isinstance(bound, UpperBound)
+            )
+        ]
         can_assigns = [option.can_assign(solution, ctx) for option in options]
         if all_of_type(can_assigns, CanAssignError):
             return CanAssignError(children=list(can_assigns))
